@@ -15,9 +15,11 @@ def main():
             evidence_file="/verif/evidence/%s.json" % pid,
             replay_cmd_template="./check --replay {path}",
             engine="contracts",
-            level_claimed=dict(category="proof", text=sp.get("level_text", ""), design_ref=sp.get("design_ref", "DESIGN.md section 7")),
-            level_note=sp.get("level_note", ""),
-            technique=sp.get("technique", "contract-based deductive verification (Verus on extracted real functions; Kani/CBMC full-domain harnesses)"),
+            level_claimed=dict(category=sp.get("level", "proof"),
+                               text=sp.get("level_text", "No contract of this framework reaches the functions this property depends on yet. The check is the labelled stand-in only: executable postconditions (independent big-integer / from-the-standard oracles) evaluated on boundary-biased inputs against the real code. It can find violations; it proves nothing."),
+                               design_ref=sp.get("design_ref", "DESIGN.md section 7")),
+            level_note=sp.get("level_note", "stand-in sweep only; nothing discharged by a verifier for this property"),
+            technique=sp.get("technique", "contract-based deductive verification (Verus on extracted real functions; Kani/CBMC full-domain harnesses)" if sp.get("level", "proof") == "proof" else "executable postconditions, directed search (stand-in for contracts not yet written; not deductive)"),
         ))
     na = [dict(property_id=k, reason=v) for k, v in sorted(registry.NOT_APPLICABLE.items())]
     allp = [json.loads(l)["id"] for l in open(os.path.join(ROOT, "properties.jsonl")) if l.strip()]
